@@ -3,6 +3,7 @@ package main
 import (
 	"bytes"
 	"context"
+	"crypto/sha256"
 	"errors"
 	"fmt"
 	"io"
@@ -11,6 +12,7 @@ import (
 	"reflect"
 	"regexp"
 	"runtime"
+	"strconv"
 	"strings"
 	"syscall"
 
@@ -192,12 +194,22 @@ type Res struct {
 func (r Res) Intact() bool { return r.bytes == nil || string(r.bytes) == r.Out }
 
 func (r Res) Key() string {
-	return fmt.Sprintf("ok=%v|out=%q|err=%q|path=%q|line=%d|panic=%q|stage=%s", r.OK, r.Out, r.Err, r.Path, r.Line, r.Panic, r.Stage)
+	return fmt.Sprintf("ok=%v|out=%s|err=%q|path=%q|line=%d|panic=%q|stage=%s", r.OK, quoteBig(r.Out), r.Err, r.Path, r.Line, r.Panic, r.Stage)
+}
+
+// quoteBig quotes s; an output of more than 64 KiB is given as its first 200 bytes, its
+// length and a 128-bit digest of the whole (equal keys still mean equal outputs).
+func quoteBig(s string) string {
+	if len(s) <= 64<<10 {
+		return strconv.Quote(s)
+	}
+	h := sha256.Sum256([]byte(s))
+	return fmt.Sprintf("%q...(%d bytes, sha256 %x)", s[:200], len(s), h[:16])
 }
 
 // KeyNoLoc ignores Path/Line (different parse locations).
 func (r Res) KeyNoLoc() string {
-	return fmt.Sprintf("ok=%v|out=%q|err=%q|panic=%q", r.OK, r.Out, r.Err, r.Panic)
+	return fmt.Sprintf("ok=%v|out=%s|err=%q|panic=%q", r.OK, quoteBig(r.Out), r.Err, r.Panic)
 }
 
 var scratchRoot string // replaced by a token in error text
